@@ -147,6 +147,9 @@ type Prop struct {
 	CrashIsViolation bool
 	// RaceIsViolation: a race report with a library frame is a violation of this property.
 	RaceIsViolation bool
+	// CaseClass names the class of a case for the keys of crash / hang violations (so that a
+	// crash is identified by call site and input class, not by seed). Default: Case.Kind.
+	CaseClass func(c Case) string
 	// Exhaustive marks the enumerated part as complete (reported in evidence).
 	Exhaustive func(tier string) bool
 	// Post runs in the supervisor after all cases and may add run-level observations.
